@@ -34,7 +34,7 @@ func RunFetcher(c *sim.Ctx) {
 	slowPeer := knob("slow_peer", -1, nPeers-1)
 	seed := int64(knob("schedule_seed", 1, 1<<30))
 	nOps := knob("ops", 1, 24)
-	c.ProbeDecl("announced_while_suspended", "item_requested", "item_re_requested_after_timeout", "item_received", "interest_lost", "item_forgotten_by_age", "announce_by_second_peer")
+	c.ProbeDecl("announced_while_suspended", "item_requested", "item_re_requested_after_timeout", "item_received", "interest_lost", "item_forgotten_by_age", "announce_by_second_peer", "interest_regained_without_announcement")
 
 	var plan []stim
 	at := time.Duration(0)
@@ -44,7 +44,7 @@ func RunFetcher(c *sim.Ctx) {
 		}
 		gap := time.Duration(c.Int("gap_ms", 0, int(3*arrive/time.Millisecond))) * time.Millisecond
 		at = uniqueAt(at, gap, len(c.Trace.Ops))
-		switch c.PickW("op", []int{10, 4, 2, 3, 3}) {
+		switch c.PickW("op", []int{10, 4, 2, 3, 3, 2}) {
 		case 0:
 			a := []int64{int64(at), int64(c.Pick("peer", nPeers))}
 			for i := 0; i < 1+c.Pick("n_items", 3); i++ {
@@ -57,6 +57,8 @@ func RunFetcher(c *sim.Ctx) {
 			return sim.Op{K: "uninterested", A: []int64{int64(at), int64(c.Pick("item", nItems))}}, true
 		case 3:
 			return sim.Op{K: "suspend", A: []int64{int64(at)}}, true
+		case 5:
+			return sim.Op{K: "interested_again", A: []int64{int64(at), int64(c.Pick("item", nItems))}}, true
 		default:
 			return sim.Op{K: "resume", A: []int64{int64(at)}}, true
 		}
@@ -224,6 +226,14 @@ func RunFetcher(c *sim.Ctx) {
 					}
 					firstAnnounce[i] = -1
 					probes["interest_lost"]++
+				}
+			case "interested_again":
+				// interest returns long after it was lost (the fetcher had several arrive timeouts to notice the
+				// loss); without a new announcement the item must not be requested again
+				i := int(s.op.A[1]) % nItems
+				if !interested[i] && !received[i] && settledAt[i] >= 0 && t > settledAt[i]+3*arrive {
+					interested[i] = true
+					probes["interest_regained_without_announcement"]++
 				}
 			case "suspend":
 				suspended = true
